@@ -110,7 +110,7 @@ def ground(arg):
 
 
 VALUES = [1, 2.5, True, 's', None, [], [1], [1, 2.5], ['a', 1], (1, 's'), (), {'a': 1}, {}, {1, 2}, set(),
-          [[1], [2]], {'k': [1, 2]}, [(1, 's'), (2, 't')], {'a': {'b': 1.5}}, [None], (1, (2, (3,)))]
+          {1, 'a'}, {(1, 2), 's'}, [[1], [2]], {'k': [1, 2]}, [(1, 's'), (2, 't')], {'a': {'b': 1.5}}, [None], (1, (2, (3,)))]
 
 
 def all_values():
